@@ -31,6 +31,7 @@ type c13Case struct {
 	Decl     *Decl
 	Token    string
 	Lead     string // list kinds: a valid token given before the edge token ("" = none)
+	LeadN    int    // how many times the lead is given (long command lines: 1000s of repeated tokens)
 	Trail    string // option routes: a valid token given after the edge token ("" = none); a scalar keeps the last one
 	HasTrail bool
 	Delivery int
@@ -39,7 +40,7 @@ type c13Case struct {
 }
 
 func (c *c13Case) Describe() interface{} {
-	return map[string]interface{}{"decl": c.Decl.Describe(), "spec": c.App.Root.Spec, "token": c.Token, "delivery": deliveryNames[c.Delivery], "argv": c.Argv, "env": c.Env.Describe(), "lead": c.Lead, "trail": c.Trail}
+	return map[string]interface{}{"decl": c.Decl.Describe(), "spec": c.App.Root.Spec, "token": c.Token, "delivery": deliveryNames[c.Delivery], "argv": shortArgv(c.Argv), "env": c.Env.Describe(), "lead": c.Lead, "lead_times": c.LeadN, "trail": c.Trail, "argv_len": len(c.Argv)}
 }
 
 type c13Prop struct{}
@@ -158,6 +159,11 @@ func (c13Prop) Gen(t *Tape, ph *PhaseCfg) Case {
 		if ek == KString {
 			c.Lead = "lead"
 		}
+		c.LeadN = 1
+		if t.Draw(400) == 0 {
+			// a long command line: the repetition is matched token by token, thousands of levels deep
+			c.LeadN = []int{1030, 2100, 4200, 6500}[t.Draw(4)]
+		}
 	}
 	switch {
 	case r <= 4:
@@ -175,7 +181,7 @@ func (c13Prop) Gen(t *Tape, ph *PhaseCfg) Case {
 		} else {
 			spec = []string{"[-o]", "-o", "[OPTIONS]"}[t.Draw(3)]
 		}
-		if c.Lead != "" {
+		for i := 0; i < c.LeadN && c.Lead != ""; i++ {
 			argv = append(argv, "--opt="+c.Lead)
 		}
 		switch r {
@@ -203,7 +209,7 @@ func (c13Prop) Gen(t *Tape, ph *PhaseCfg) Case {
 			spec = "-- " + spec // a `--` written in the spec: as if one were present on the command line
 		}
 		toks := []string{}
-		if c.Lead != "" {
+		for i := 0; i < c.LeadN && c.Lead != ""; i++ {
 			toks = append(toks, c.Lead)
 		}
 		toks = append(toks, tok)
@@ -260,6 +266,7 @@ func (c13Prop) Exec(cc Case, st *Stats) *Violation {
 	c := cc.(*c13Case)
 	c.Env.Apply()
 	p := NewProc(0)
+	p.SetInputSize(len(c.Argv))
 	var inst *Instance
 	RunProc(p, func() error {
 		inst = Build(c.App, p)
@@ -306,8 +313,11 @@ func (c13Prop) Exec(cc Case, st *Stats) *Violation {
 	}
 	// command-line route
 	toks := []string{}
-	if c.Lead != "" {
+	for i := 0; i < c.LeadN && c.Lead != ""; i++ {
 		toks = append(toks, c.Lead)
+	}
+	if c.LeadN > 1 {
+		st.Count("reach.long_command_line_1000s_of_tokens")
 	}
 	toks = append(toks, c.Token)
 	if c.HasTrail {
